@@ -90,9 +90,12 @@ def do_deser(req):
     except BaseException as e:     # noqa: any exception is "reported as an error"
         out = 'raise:' + type(e).__name__
     idx = {'gamma': 0, 'claim': 1, 'proof': 2}[req['phase']]
-    return {'out': out, 'events': it._events, 'rebytes': list(sinks[idx].getvalue()),
-            'final': {'len': len(it.stack), 'top': tracing.entry(B, it.stack[-1]) if it.stack else {'k': 'none', 'p': {'t': 'ev', 'i': 0}},
-                      'memory': [tracing.entry(B, x) for x in it.memory], 'claims': [B.to_json(c.pattern) for c in it.claims]}}
+    try:
+        final = {'len': len(it.stack), 'top': tracing.entry(B, it.stack[-1]) if it.stack else {'k': 'none', 'p': {'t': 'ev', 'i': 0}},
+                 'memory': [tracing.entry(B, x) for x in it.memory], 'claims': [B.to_json(c.pattern) for c in it.claims]}
+    except Exception:      # noqa: the interpreter state is not even well-typed (e.g. a proof where a pattern belongs): no state to compare
+        final = {'len': -1, 'top': {'k': 'none', 'p': {'t': 'ev', 'i': 0}}, 'memory': [], 'claims': []}
+    return {'out': out, 'events': it._events, 'rebytes': list(sinks[idx].getvalue()), 'final': final}
 
 
 # ---------------------------------------------------------------- C19: pretty printing
